@@ -1202,9 +1202,10 @@ func (st *State) makeInterface(v Val, from, to types.Type) Val {
 	case PtrV:
 		return TV{app("mkptr", SInt, vc.typeID(from), st.encodePtr(x)), to}
 	case StructV:
-		// struct boxed into an interface: opaque non-nil value with the right dynamic type
+		// struct boxed into an interface: opaque non-nil value with the right dynamic type (the boxed value is remembered for json.Marshal)
 		c := st.declare("ibox", SInt)
 		st.assume(tAnd(tNot(tEq(c, tInt(0))), tEq(app("typeof", SInt, c), vc.typeID(from))))
+		st.dyn[c.S] = dynInfo{from, v}
 		return TV{c, to}
 	case SliceV:
 		c := st.declare("ibox", SInt)
